@@ -504,6 +504,14 @@ func (g *Gen) havocLoc(env *Env, le Expr) error {
 					return nil
 				}
 			}
+			if id, ok := x.Args[0].(*EIdent); ok {
+				// all(ghostfield): the ghost field of every object
+				if gd, ok := g.E.contracts.Ghosts[id.Name]; ok && gd.Kind == "field" {
+					h, _, _, _ := g.ghostHeap(gd)
+					g.heapHavoc(g.cur, h)
+					return nil
+				}
+			}
 			return fmt.Errorf("bad all(...) location")
 		}
 		if x.Fun == "allentries" && len(x.Args) == 2 {
